@@ -202,7 +202,7 @@ def resolve_presentation(p, shared):
         r = MoleculeResolver.from_graph(p['frag_string'], g, **kw)
     else:
         lib = shared.get(p['frag_string'])
-        before = [{name: contracts.snap_graph(g) for name, g in d.items()} for d in lib]
+        before = [{name: (contracts.snap_graph(g), repr(sorted(g.graph.items(), key=repr))) for name, g in d.items()} for d in lib]   # nodes, edges and the graph-level attribute dict
         try:
             if len(p['base_string']) % 3 == 0:
                 # a caller first hands over the COMPLETE string (with a block defining one more unit), which this constructor
@@ -223,7 +223,7 @@ def resolve_presentation(p, shared):
                         if isinstance(v_, (list, dict)):
                             v_.clear()
         finally:
-            after = [{name: contracts.snap_graph(g) for name, g in d.items()} for d in lib]
+            after = [{name: (contracts.snap_graph(g), repr(sorted(g.graph.items(), key=repr))) for name, g in d.items()} for d in lib]
             if after != before:
                 contracts.rec('C12', 'c12.library_modified', f'the fragment dictionaries handed to from_fragment_dicts for {p["base_string"]}.{p["frag_string"]} were changed by constructing / resolving')
                 shared.dicts.pop(p['frag_string'], None)
